@@ -58,11 +58,11 @@ def cases(tier, seed):
     n = 6 if tier == "quick" else 120
     for k in range(n):
         half = "left" if k % 3 else "full"
-        spec = M.random_spec(rng, half=half, nx=int(rng.integers(2, 4)), ny=int(rng.integers(3, 8)))
+        spec = zoo.sane_wing(M.random_spec(rng, half=half, nx=int(rng.integers(2, 4)), ny=int(rng.integers(3, 8))))
         spec["camber"] = 0.0
         out.append(dict(kind="coupled", surfaces=[dict(name="wing", symmetry=(half == "left"), mesh=spec, fem_model_type="tube" if k % 2 else "wingbox",
                                                        fem_origin=float(np.round(rng.uniform(0.1, 0.7), 3)))],
-                        flow=dict(alpha=float(np.round(rng.uniform(1, 8), 2)), v=float(rng.uniform(50, 200)), rho=float(rng.uniform(0.4, 1.2))), _cost=6))
+                        flow=dict(alpha=float(np.round(rng.uniform(1, 8), 2)), v=float(rng.uniform(50, 160)), rho=float(rng.uniform(0.3, 0.8))), _cost=6))
     return out
 
 
